@@ -41,8 +41,11 @@ def setup(ctx):
     _x = xtuml
     mc.bind(xtuml)
     _ws_tmp = str(ctx.ws.tmp('c11'))
+    global _repo_copy
+    _repo_copy = str(ctx.ws.repo)
 
 
+_repo_copy = None
 UID_SPELLINGS = ['unique_id', 'UNIQUE_ID', 'Unique_Id']
 STRS = {'': 1000, 'a': 1001, 'b': 1002}
 
@@ -145,6 +148,11 @@ def generate(ctx):
         for _ in range(r.choice([0, 1, 2, 3])):
             opts.append(r.choice([['-r', '1'], ['-r', '2'], ['-k', 'A'], ['-k', 'B'], ['-r', '1'], ['-R', '1']]))
         yield {'fam': 'load', 'brows': brows, 'arows': arows, 'card': list(card), 'opts': opts, 'queries': []}
+    # the tool run as a PROCESS: the exit status is the observable of `python -m xtuml.consistency_check <file>`
+    # (violation counts around the 8-bit boundary of an exit status included)
+    for n in ([0, 1, 2, 255, 256, 257, 512] if ctx.quick() else [0, 1, 2, 3, 127, 128, 255, 256, 257, 511, 512, 513, 768, 1024]):
+        for opts in ([], [['-r', '1']], [['-k', 'A']]):
+            yield {'fam': 'proc', 'n': n, 'opts': opts, 'queries': []}
 
 
 # --------------------------------------------------------------------------- oracle
@@ -296,7 +304,38 @@ def run_load(case):
     return m, d, errors, queries, rels, kinds
 
 
+def run_proc(case):
+    """B(Id) and n rows of A whose referential value names no B (unconditional end): n association violations
+    across R1, none elsewhere"""
+    import subprocess
+    import sys
+    n = case['n']
+    rows = ['CREATE TABLE A (Id INTEGER, B_Id INTEGER);', 'CREATE TABLE B (Id INTEGER);',
+            'CREATE UNIQUE INDEX I1 ON A (Id);', 'CREATE UNIQUE INDEX I1 ON B (Id);',
+            'CREATE ROP REF_ID R1 FROM MC A (B_Id) TO 1 B (Id);', 'INSERT INTO B VALUES (1);']
+    rows += ['INSERT INTO A VALUES (%d, 99);' % (i + 1) for i in range(n)]
+    path = os.path.join(_ws_tmp, 'c11_proc_%d_%d.sql' % (os.getpid(), n))
+    with open(path, 'w') as f:
+        f.write('\n'.join(rows) + '\n')
+    want = n      # -k alone restricts the uniqueness part only: without -r every association is still checked (and vice versa)
+    env = dict(os.environ)
+    env['PYTHONPATH'] = _repo_copy
+    try:
+        p = subprocess.run([sys.executable, '-m', 'xtuml.consistency_check'] + [o for pair in case['opts'] for o in pair] + [path],
+                           env=env, cwd=_ws_tmp, stdout=subprocess.PIPE, stderr=subprocess.PIPE, timeout=120)
+    finally:
+        os.unlink(path)
+    fails = []
+    if (p.returncode != 0) != (want > 0):
+        fails.append({'sig': 'exit-status', 'what': 'python -m xtuml.consistency_check %s on a model with %d violation(s) in the selected '
+                      'parts exited with status %d' % (case['opts'], want, p.returncode)})
+    return {'obs': [], 'd_fail': fails, 'nontrivial': want > 0, 'key': 'proc/%d/%r' % (n, case['opts']),
+            'stats': {'fam_proc': 1}, 'model_line': None}
+
+
 def run_impl(case):
+    if case['fam'] == 'proc':
+        return run_proc(case)
     fails = []
     stats = {'fam_' + case['fam']: 1}
     if case['fam'] == 'load':
